@@ -127,6 +127,35 @@ static Outcome runCase(const KV& c)
         o.fail("rhs_modified", "the cycle modified the level-0 right-hand side");
         return o;
     }
+    // (iv) a cycle is a linear correction scheme: with iterate and right-hand sides scaled by one power of two the result is
+    // the scaled result, bit for bit (the scaling is exact; an absolute threshold anywhere in the cycle breaks this)
+    if (const int sc = (int)c.getI("homogeneity_exp", 0); sc != 0) {
+        o.cls(sc < 0 ? "homogeneity_tiny" : "homogeneity_huge");
+        Vector<double> us = u, r0s = rhs0, r1s = rhs1;
+        for (int i = 0; i < us.size(); i++)
+            us[i] = std::ldexp(us[i], sc);
+        for (int i = 0; i < r0s.size(); i++)
+            r0s[i] = std::ldexp(r0s[i], sc);
+        for (int i = 0; i < r1s.size(); i++)
+            r1s[i] = std::ldexp(r1s[i], sc);
+        L[0].solution() = us;
+        L[0].rhs()      = r0s;
+        L[1].rhs()      = r1s;
+        pollute(*s, c.getU("pollute_seed") + 3, true);
+        GMGPolarVerifAccess::cycle(*s, cycle, extrap != 0, 0, L[0].solution(), L[0].rhs(), L[0].residual());
+        double dmax = 0;
+        for (int i = 0; i < n; i++)
+            dmax = std::max(dmax, std::fabs(std::ldexp(L[0].solution()[i], -sc) - out1[i]));
+        L[0].rhs() = rhs0;
+        L[1].rhs() = rhs1;
+        if (dmax > 1e-12 * scale) {
+            char buf[300];
+            snprintf(buf, sizeof buf, "%s%s-cycle (%d levels, nu=%d,%d): with all data scaled by 2^%d the result is not the scaled result (max diff %.3e after rescaling, |u|=%.3e)",
+                     extrap ? "extrapolated " : "", cn[cycle], nl, nu1, nu2, sc, dmax, scale);
+            o.fail("homogeneity", buf);
+            return o;
+        }
+    }
     if (mode == 0) {
         // (i) differential against the reference cycle (own vectors at every depth)
         RefCycle rc(*s);
@@ -254,6 +283,7 @@ static KV genCase()
     s.put(c);
     c.putI("cycle", rint(0, 2));
     c.putI("verbose", rweighted({3, 1, 2}));
+    c.putI("homogeneity_exp", rpick({0, 0, 0, -60, -200, 200}));
     c.putI("extrap", rint(0, 1));
     c.putI("fgs", rint(0, 1));
     c.putI("nu1", rint(0, 3));
